@@ -450,6 +450,14 @@ def render_extract(ex, mode=None, canary=None):
 
 def generate(unit, mode=None, canary=None):
     """Render units/<unit>.rs.  Returns dict(text, regions, items, notes, canaries, has_requires)."""
+    gen_py = os.path.join(VERIF, 'units', unit + '.py')
+    if os.path.exists(gen_py):
+        # data-driven unit: a generator that reads /repo and emits obligations
+        import importlib.util
+        spec = importlib.util.spec_from_file_location('unit_' + unit, gen_py)
+        mod = importlib.util.module_from_spec(spec)
+        spec.loader.exec_module(mod)
+        return mod.render(mode=mode, canary=canary)
     tpl = os.path.join(VERIF, 'units', unit + '.rs')
     nodes = parse_template(tpl)
     out_lines = []
